@@ -141,13 +141,17 @@ func (s *segImpl) exec(op string) (out string) {
 		before, _ := s.disk.FileData(s.name)
 		var wrOff int64 = -1
 		var wrLen int
-		s.disk.After = func(ev *simfs.Event) {
-			if ev.Kind == "write" && wrOff < 0 {
+		// the write of the batch is the LAST write of the call: after a failed append the writer first zeroes what that
+		// one left behind the tail (a write and an fsync of their own, durable by the time the batch is written) — the
+		// image is built from the file as it was just before the last write
+		s.disk.Before = func(ev *simfs.Event) {
+			if ev.Kind == "write" {
+				before, _ = s.disk.FileData(s.name)
 				wrOff, wrLen = ev.Off, len(ev.Data)
 			}
 		}
 		err := s.w.Append(parseEntries(ws[2:]))
-		s.disk.After = nil
+		s.disk.Before = nil
 		if err != nil {
 			return segClass(err)
 		}
